@@ -95,8 +95,14 @@ Proof.
       destruct (redraw_cursor_ok (sn_cursor sn) (sn_clx sn) (sn_cly sn) W H upd2 HW HH Wu2 Iu2) as [Wa Ia].
       apply redraw_cursor_ok; assumption. }
     destruct K as [Wu3 Iu3].
+    set (upd4 := if c_cursorshape c1 then upd3 else clip_to_requested upd3 (sn_req sn)).
+    assert (K4 : WF upd4 /\ within W H upd4).
+    { unfold upd4. destruct (c_cursorshape c1); [split; assumption|].
+      destruct (clip_ok upd3 (sn_req sn) Wu3 Wq) as [Wk Mk]. split; [assumption|].
+      intros x y Hm. rewrite Mk in Hm. apply andb_true_iff in Hm. apply Iu3. tauto. }
+    clear Wu3 Iu3. destruct K4 as [Wu3 Iu3].
     apply Forall_forall. intros r Hin. apply in_map_iff in Hin. destruct Hin as (rc & <- & Hin).
-    pose proof (iter_rect_inside false false upd3 W H rc Wu3 Iu3 Hin) as Hr.
+    pose proof (iter_rect_inside false false upd4 W H rc Wu3 Iu3 Hin) as Hr.
     destruct rc as [[[x1 y1] x2] y2]. cbn [to_xywh rect_in_screen]. lia.
   - apply Forall_forall. intros rc Hin.
     assert (Iuc : within W H ucopy).
